@@ -108,7 +108,12 @@ impl Proj {
                 s.push_str(&format!("#[derive(Debug, Clone, Default, Serialize, Deserialize)]\npub struct {};\n\n", st.name));
                 continue;
             }
-            s.push_str("#[derive(Debug, Clone, Serialize, Deserialize, Validate)]\n");
+            // the serde derive in one attribute, or in a later one of two / qualified
+            match (st.name.len() + st.fields.len()) % 4 {
+                0 => s.push_str("#[derive(Debug, Clone)]\n#[derive(Serialize, Deserialize, Validate)]\n"),
+                1 => s.push_str("#[derive(Debug, Clone, serde::Serialize, serde::Deserialize, Validate)]\n"),
+                _ => s.push_str("#[derive(Debug, Clone, Serialize, Deserialize, Validate)]\n"),
+            }
             match (st.noise.as_str(), &st.rename_all) {
                 ("same", Some(r)) => s.push_str(&format!("#[serde(deny_unknown_fields, rename_all = \"{}\", default)]\n", r)),
                 ("before", Some(r)) => s.push_str(&format!("#[serde(rename_all = \"{}\")]\n#[serde(default, deny_unknown_fields)]\n", r)),
@@ -403,8 +408,12 @@ pub fn random_project(t: &mut Tape, safe: bool, avoided: &mut u64) -> Proj {
             *avoided += 1;
         }
         let camel = |s: &str| heck::ToLowerCamelCase::to_lower_camel_case(unraw(s));
-        if commands.iter().any(|c| camel(&c.name) == camel(&name)) || camel(&name).is_empty() {
+        // two commands may share their camelCase form (`ping` / `_ping`): distinct for Tauri, and the
+        // tool has to keep their wrappers apart; only identical Rust names are impossible
+        if commands.iter().any(|c| unraw(&c.name) == unraw(&name)) || camel(&name).is_empty() {
             name = format!("command_{}", ci);
+        } else if commands.iter().any(|c| camel(&c.name) == camel(&name)) {
+            features.insert("has=colliding_command_names".into());
         }
         let n_params = t.pick(5);
         let mut params: Vec<ParamM> = vec![];
